@@ -27,7 +27,7 @@ VARIANTS = {
 }
 LIBS = ['-lcfitsio', '-lcholmod', '-lspqr', '-lopenblas', '-lpthread', '-lrt', '-ldl', '-lm']
 INC = lambda: ['-I' + os.path.join(REPO, 'include'), '-I/usr/include/suitesparse',
-               '-I' + os.path.join(VERIF, 'harness', 'common'), '-I' + os.path.join(REPO, 'src', 'fitter')]
+               '-I' + os.path.join(VERIF, 'harness', 'common'), '-I' + os.path.join(VERIF, 'harness'), '-I' + os.path.join(REPO, 'src', 'fitter')]
 
 CORE_SRC = ['src/core/bspline.cpp', 'src/core/bspline_multi.cpp', 'src/core/convolve.cpp', 'src/core/fitsio.cpp']
 FIT_SRC = ['src/fitter/cholesky_solve.c', 'src/fitter/glam.c', 'src/fitter/nnls.c', 'src/fitter/splineutil.c']
@@ -98,7 +98,7 @@ def prune(keep_dirs):
         return
     ds = [d for d in ds if os.path.isdir(d) and d not in keep_dirs]
     ds.sort(key=lambda d: os.path.getmtime(d))
-    while len(ds) > 10:
+    while len(ds) > 60:
         shutil.rmtree(ds.pop(0), ignore_errors=True)
 
 
@@ -113,7 +113,9 @@ def build(targets, jobs=16, verbose=False):
     for t in targets:
         variant = t['variant']
         fitter_flags = t.get('fitter_flags', [])
-        rh = repo_hash(variant, ' '.join(fitter_flags))
+        # force-included shim headers are part of the key
+        shim = ''.join(_hash_files([f]) for f in fitter_flags if os.path.isfile(f))
+        rh = repo_hash(variant, ' '.join(fitter_flags) + shim)
         d = os.path.join(BUILD, '%s-%s' % (variant, rh))
         os.makedirs(d, exist_ok=True)
         os.utime(d, None)
@@ -129,6 +131,7 @@ def build(targets, jobs=16, verbose=False):
             return os.path.join(REPO, x[5:]) if x.startswith('repo:') else os.path.join(VERIF, 'harness', x)
         hsrcs = [_hp(t['harness'])] + [_hp(e) for e in t.get('extra_src', [])]
         common = [os.path.join(VERIF, 'harness', 'common', f) for f in sorted(os.listdir(os.path.join(VERIF, 'harness', 'common')))]
+        common += [os.path.join(VERIF, 'harness', 'sched', f) for f in sorted(os.listdir(os.path.join(VERIF, 'harness', 'sched')))]
         hh = _hash_files(hsrcs + common, ' '.join(t.get('extra_flags', [])) + ' '.join(t.get('libs', [])))
         name = t.get('name') or (os.path.splitext(os.path.basename(t['harness']))[0] + '.' + variant)
         hobjs = []
